@@ -34,6 +34,14 @@ the call raise is `ignored`, as at a base position; for a name of the tables the
 hand it to the dispatcher (observed by wrapping the helper) - whether the dispatcher then gives
 it an effect is judged at the base position, where the result is not hidden by the rest of the
 stage (`$sum` of strings, a `startWith` that connects to nothing).
+
+Empty input (`on_empty`): a name that a site REFUSES on the populated collection (every probing
+call raises) is tried again, with the same calls, on an EMPTY collection: the refusal must be
+repeated there (`raises`) - a stage that looks at the names of its specification only while it
+reads documents lets every unsupported name through when there is nothing to read (`silent`).
+Since 6f29a71 `$group` / `$bucket` check their accumulator names before reading anything; the
+expression parts of the stages (and `restrictSearchWithMatch`) still do not: known findings
+`lazy-empty:<site>`.
 """
 import ast
 import collections
@@ -174,12 +182,27 @@ def found_dispatchers(T):
     return out
 
 
+def _module_level_callees():
+    """the names called from inside a module-level function of aggregate.py"""
+    out = set()
+    for top in _module_tree().body:
+        if isinstance(top, ast.FunctionDef):
+            for node in ast.walk(top):
+                if isinstance(node, ast.Call) and _called_name(node):
+                    out.add(_called_name(node))
+    return out
+
+
 def dispatch_helpers(T):
     """HELPERS, and every further dispatcher the source has (a validation pass hoisted out of a
-    helper, a second accumulator loop, ...): its call sites are positions as well"""
+    helper - `_validate_accumulators` -, a second accumulator loop, ...): its call sites are
+    positions as well.  A function that consults a table of `$`-names and is called from inside
+    the classes only (`_argument_list`: the arity table, used by `_Parser.parse`) has no call
+    site in a stage handler: it belongs to the recursion of the parser (lazy-context probes)."""
     out = list(HELPERS)
+    called = _module_level_callees()
     for d in found_dispatchers(T):
-        if not d['known'] and d['family']:
+        if not d['known'] and d['family'] and d['function'] in called:
             out.append((mm_aggregate, d['function'], d['family']))
     return out
 
@@ -533,6 +556,14 @@ def probe_site_entry(prober, counters, site, base, name, derived):
     disp = classify_site(outcomes, seen, inn, noop_ok)
     if disp == 'implemented' and not name.startswith('$'):
         disp = 'plainKey'
+    # a refusal must not depend on there being a document to read
+    on_empty, empty_probe = 'notProbed', None
+    if disp in ('raisesNotImplemented', 'raisesOther'):
+        ecalls = site_calls(prober, dict(site, context='empty'), base, name)
+        eouts = [prober.run_call(c) for c in ecalls]
+        quiet = [c for c, o in zip(ecalls, eouts) if o[0] == 'ok']
+        on_empty = 'silent' if quiet else 'raises'
+        empty_probe = quiet[0].code if quiet else None
     errors = collections.Counter(o[1] for o in outcomes if o[0] == 'raise')
     witness = None
     if disp == 'ignored':
@@ -549,6 +580,7 @@ def probe_site_entry(prober, counters, site, base, name, derived):
         'reached': counters[anchor] > before, 'handed_to_dispatcher': sum(1 for x in seen if x),
         'probe': witness.code if witness else None,
         'baseline': [c for c, _ in witness.baselines] if witness else [],
+        'on_empty': on_empty, 'empty_probe': empty_probe,
     }
 
 
